@@ -978,6 +978,7 @@ def torch_port_spectrum(ctx):
     from . import c14
 
     c14.mirror_twin(ctx, R="R-C09-torch-port-spectrum")
+    c14.torch_walk_by_evaluation(ctx, R="R-C09-torch-port-spectrum")
 
 
 def torch_port_reductions(ctx):
